@@ -9,7 +9,7 @@ RULE = ("convolve: integer-valued signals (float results exact) of 1..14 samples
         "epochs shorter than the kernel, epochs holding one or no sample, samples on interval ends, kernels of length 1..6 (odd and "
         "even), all three trim modes, with and without an `ep` argument, Tsd / TsdFrame / TsdTensor and 2-D kernels: implementation == Lean "
         "model == an independent brute-force sum; perturbing the data of other epochs leaves an epoch's output unchanged; time axis, "
-        "support, shape and column labels kept; linearity on float signals; smooth == convolve with its Gaussian window.  Filters "
+        "support, shape and column labels kept; linearity on float signals and on int64 / int16 signals (f(3x) = 3 f(x) = the float64 result); smooth == convolve with its Gaussian window.  Filters "
         "(windowed-sinc and Butterworth, low/high/band-pass/band-stop): low+high and band-pass+band-stop sum to the signal (sinc), "
         "multi-epoch result == each epoch filtered alone, linearity, time axis / shape / labels kept.  distinct = distinct configurations")
 PROVED = ("convTrim_length, convTrim_get (window of the full convolution), convTrim_linear, sinc_complement (odd kernels, trim both), "
@@ -185,6 +185,28 @@ def linear_and_filters(ctx, n_cases):
                 if not close(res["bandpass"].values + res["bandstop"].values, x):
                     ctx.fail("oracle", "windowed-sinc band-pass + band-stop != signal", inp,
                              impl=float(np.max(np.abs(res["bandpass"].values + res["bandstop"].values - x))))
+        # integer-dtype signals (raw recordings are int16): the same linear map, nothing truncated to the input's dtype.
+        # Tolerance wide enough for a float32 result; an integer-valued result is off by up to a whole unit.
+        for dt in (np.int64, np.int16):
+            xi = npr.randint(-50, 50, len(t)).astype(dt)
+            Xi = nap.Tsd(t, xi, time_support=ep); X3 = nap.Tsd(t, (3 * xi).astype(dt), time_support=ep)
+            Xf = nap.Tsd(t, xi.astype(np.float64), time_support=ep)
+            ops = [("convolve", lambda z: z.convolve(k)), ("smooth", lambda z: z.smooth(3 / fs, size_factor=4))]
+            for mode in ("sinc", "butter"):
+                ops.append(("%s lowpass" % mode, lambda z, mode=mode: nap.apply_lowpass_filter(z, lo, fs, mode=mode)))
+                ops.append(("%s bandstop" % mode, lambda z, mode=mode: nap.apply_bandstop_filter(z, (lo, hi), fs, mode=mode)))
+            for name, f in ops:
+                ctx.count("intdtype:%s" % name)
+                try:
+                    r1, r3, rf = f(Xi).values, f(X3).values, f(Xf).values
+                except Exception as e:
+                    ctx.fail("oracle", "%s on %s data raised %r" % (name, dt.__name__, e), dict(inp, dtype=dt.__name__)); continue
+                if not np.allclose(r3, 3.0 * np.asarray(r1, dtype=np.float64), rtol=1e-4, atol=1e-3):
+                    ctx.fail("oracle", "%s is not linear on %s data: f(3x) != 3 f(x)" % (name, dt.__name__),
+                             dict(inp, dtype=dt.__name__, x=[int(v) for v in xi]), impl=float(np.max(np.abs(r3 - 3.0 * r1))))
+                elif not np.allclose(r1, rf, rtol=1e-4, atol=1e-3):
+                    ctx.fail("oracle", "%s on %s data differs from the same samples as float64" % (name, dt.__name__),
+                             dict(inp, dtype=dt.__name__, x=[int(v) for v in xi]), impl=float(np.max(np.abs(r1 - rf))))
         # smooth == convolve with the gaussian window the code builds
         std = rng.choice([2, 3, 5]) / fs
         sm = X.smooth(std, size_factor=6)
